@@ -265,24 +265,24 @@ pub fn mark() -> Mark {
     Mark { n: s.n, nfrees: s.nfrees, nerrs: s.nerrs }
 }
 
-/// blocks allocated since `m` (all tags)
-pub fn allocated_since(m: Mark) -> Vec<Entry> {
+/// blocks allocated since `m` (all tags) with their allocation index
+pub fn allocated_since(m: Mark) -> Vec<(usize, Entry)> {
     with_tag(TAG_X, || {
         let s = unsafe { st() };
         let n = s.n;
-        (m.n..n).map(|i| unsafe { *s.entries.add(i) }).collect()
+        (m.n..n).map(|i| (i, unsafe { *s.entries.add(i) })).collect()
     })
 }
 
 /// blocks freed since `m` (in order), with the index telling whether they predate the mark
-pub fn freed_since(m: Mark) -> Vec<(Entry, bool)> {
+pub fn freed_since(m: Mark) -> Vec<(Entry, bool, usize)> {
     with_tag(TAG_X, || {
         let s = unsafe { st() };
         let n = s.nfrees;
         (m.nfrees..n)
             .map(|k| unsafe {
                 let i = *s.frees.add(k) as usize;
-                (*s.entries.add(i), i < m.n)
+                (*s.entries.add(i), i < m.n, i)
             })
             .collect()
     })
